@@ -5,11 +5,14 @@
      kind    "residuals" | "measurements" | "unbalanced"
      method  "full" | "diag" | "shrinkage_eye" | "shrinkage_diag"
      p       number of channels
-     inputs  [ {"rows": [[x..]..], "labels": [n..]?} .. ]      numbers as ints / "p/q"
+     inputs  [ {"rows": [[x..]..], "labels": [n..]?, "p": n?} .. ]   numbers as ints / "p/q";
+             "p" = channel count of that list element when it differs from the request's `p"
      as_list true: the call received a list (answer is a list), false: a single input
      dof     null | number | [numbers]
    answer: one (or a list of) {"cov": [[..]] | null, "prec": [[..]] | null,
-                               "lam": λ | null, "clip": "lo"|"hi"|"in"|"deg"|null}
+                               "lam": λ | null, "clip": "lo"|"hi"|"in"|"deg"|"const"|null}
+     clip "deg": d2 / denom not positive (covariance equals its target); "const": shrinkage_diag
+     with a channel without positive variance (NaN path of the source, see `sdDegenerate`)
      cov  = null : the library raises (unbalanced design handed to np.stack, short dof list)
      prec = null : covariance singular (exact test)
      prec is always computed exactly (Rat) with the certificate A·B = I checked; in
@@ -54,6 +57,7 @@ def rowOf {α} [Zero α] (l : List α) : Row α := fun j => l[j]?.getD 0
 structure Input (α : Type) where
   rows : List (List α)
   labels : List Nat
+  p : Option Nat := none      -- channel count of this element when it differs from the request's
 
 section generic
 variable {α : Type} [Add α] [Sub α] [Mul α] [Div α] [Zero α] [One α] [NatCast α] [Neg α]
@@ -69,7 +73,8 @@ def lamInfo (m : Method) (rows : List (Row α)) (dof : α) (p : Nat) : Option α
         else if 0 < eyeB2raw rows p then "in" else "lo")
     else (some (eyeLambda rows p), "deg")
   | .sdiag =>
-    if 0 < sdDen rows dof p then
+    if sdDegenerate rows dof p then (some (sdLambda rows dof p), "const")
+    else if 0 < sdDen rows dof p then
       let raw := sdNum rows dof p / sdDen rows dof p
       (some (sdLambda rows dof p), if 1 < raw then "hi" else if raw < 0 then "lo" else "in")
     else (some (sdLambda rows dof p), "deg")
@@ -124,7 +129,10 @@ def parseInput {α} (num : Json → R α) (j : Json) : R (Input α) := do
   let labels ← match j.getObjVal? "labels" with
     | .ok v => if v.isNull then pure [] else asList asNat v
     | .error _ => pure []
-  pure { rows := rows, labels := labels }
+  let pi ← match j.getObjVal? "p" with
+    | .ok v => if v.isNull then pure none else some <$> asNat v
+    | .error _ => pure none
+  pure { rows := rows, labels := labels, p := pi }
 
 def parseDof {α} (num : Json → R α) (j : Json) : R (DofArg α) :=
   if j.isNull then pure .none
@@ -148,9 +156,9 @@ def runG (num : Json → R α) (out : α → Json) (toRat : α → Option Rat) (
     let kind' := if kind = "residuals" then "residuals" else "unbalanced"
     let res := (List.range inputs.length).map (fun i =>
       match inputs[i]?, dof.at i with
-      | some inp, some di => covOne kind' m inp di p
-      | _, _ => none)
-    pure (ofList (resultJson p out toRat) res)
+      | some inp, some di => (inp.p.getD p, covOne kind' m inp di (inp.p.getD p))
+      | _, _ => (p, none))
+    pure (ofList (fun (pr : Nat × _) => resultJson pr.1 out toRat pr.2) res)
   else
     match inputs, dof with
     | [inp], .none => pure (resultJson p out toRat (covOne kind m inp Option.none p))
